@@ -4,12 +4,12 @@
 LEVEL = "other"
 TRUSTED = ['networkx condensation / topological order (A2)']
 ASSUMPTIONS = ['A4 (not proved): max-antichain = min-flow duality']
-EXPLANATION = ('Proved (PyVC, unbounded): the reverse-topological DP of stDAG.reachable_nodes_from establishes the fix-point equation R[u] = {u} + union of R[successors] for every node, and the table is memoised (a later query returns the same object). The other substrate queries have no unbounded proof. The property is decided by the BOUNDED stand-in: reachability tables of stDAG/stDiGraph vs BFS under varied query orders with warm and cold caches, per-edge max reachable value, is_scc_edge, maximum edge antichain vs brute force over all antichains, bottleneck peeling of conserving flows (rc/p_C17.py).')
+EXPLANATION = ('Proved (PyVC, unbounded): greedy bottleneck peeling - graphutils.max_bottleneck_path (the DP over a topological order: B = infinity at sources, else the best min(B[pred], flow) over the predecessors, attained by maxInNeighbor; the recovered path runs from a source to the best sink along edges that each carry at least the reported, positive value and visits no node twice; (None, None) only if that value is 0) and stDAG.decompose_using_max_bottleneck (conservation: on every edge what remains plus the reported weights through it equals its flow and nothing negative remains, one positive weight per path). The same two units are also run natively on small concrete DAGs / conserving flows (bounded, labelled as such), where the maximum over all paths and the exact adding-up are decided by enumeration. the reverse-topological DP of stDAG.reachable_nodes_from establishes the fix-point equation R[u] = {u} + union of R[successors] for every node, and the table is memoised (a later query returns the same object). The other substrate queries have no unbounded proof. The property is decided by the BOUNDED stand-in: reachability tables of stDAG/stDiGraph vs BFS under varied query orders with warm and cold caches, per-edge max reachable value, is_scc_edge, maximum edge antichain vs brute force over all antichains, bottleneck peeling of conserving flows (rc/p_C17.py).')
 
 
 def units(tier):
-    from contracts import c17
-    return c17.all_units()
+    from contracts import c17, c17b
+    return c17.all_units() + c17b.all_units()
 
 
 def bounded(tier, seed):
@@ -23,8 +23,8 @@ def bounded(tier, seed):
 
 MANIFEST = dict(
     category="other",
-    text='Contract-based proofs on the real source: stDAG.reachable_nodes_from (reverse-topological DP fix-point) and the per-node reachability caches of stDiGraph (cache invariant as pre- and postcondition, any query order) + bounded stand-in: executable contracts of all substrate queries on all small DAGs/digraphs, several query orders and cache states, against BFS and brute-force antichain enumeration.',
+    text='Contract-based proofs on the real source: the bottleneck DP and the peeling loop (conservation), stDAG.reachable_nodes_from (reverse-topological DP fix-point) and the per-node reachability caches of stDiGraph (cache invariant as pre- and postcondition, any query order) + bounded stand-in: executable contracts of all substrate queries on all small DAGs/digraphs, several query orders and cache states, against BFS and brute-force antichain enumeration.',
     design_ref="DESIGN.md section 3 / C17",
-    note='Antichain / width / peeling / per-edge maxima are decided by the bounded stand-in only.',
+    note='Antichain / width / per-edge maxima, the optimality of the bottleneck DP over all paths and the exact adding-up of the peeled weights are decided by bounded means only (exhaustive small universes, concrete instances of the contracts).',
     technique='contract-based deductive verification of the reachability queries (PyVC) + bounded runtime-contract check vs BFS / brute-force oracles',
     engine='rc')
